@@ -37,12 +37,15 @@ type c17Case struct {
 	// LMTP: server and client speak LMTP (envelope callbacks only: the final
 	// replies of an LMTP transfer carry a recipient prefix, C13's subject)
 	LMTP bool `json:"lmtp,omitempty"`
+	// Frag > 0: the server's replies reach the client in segments of at most
+	// Frag octets (a network may deliver a reply octet by octet)
+	Frag int `json:"frag,omitempty"`
 }
 
 const c17Msg = "hello\r\n" // the judged message (DATA: before the end marker)
 
 func c17Cfg(c c17Case) harness.Config {
-	cfg := harness.Config{LMTP: c.LMTP && c.Source != "Data"}
+	cfg := harness.Config{LMTP: c.LMTP && c.Source != "Data", FragmentReplies: c.Frag}
 	switch c.Limit {
 	case "exact":
 		cfg.MaxMessageBytes = int64(len(c17Msg))
@@ -312,6 +315,11 @@ func withClient(r *harness.Rig, lmtp bool, fn func(c *smtp.Client, w *harness.Wi
 			stuck = true
 			return true
 		}
+		if w.S.BlockedInWriteLocked() && w.C.BlockedInWriteLocked() {
+			// unbuffered transport: each waits for the other to read
+			stuck = true
+			return true
+		}
 		return false
 	}, harness.Watchdog)
 	lastClientStuck = stuck
@@ -515,6 +523,6 @@ func TestC17(t *testing.T) {
 			Limit: rapid.SampledFrom([]string{"", "", "exact", "above"}).Draw(rt, "limit"),
 			Prior: rapid.SampledFrom([]string{"", "", "", "bdat-failed-chunk", "bdat-rset", "bdat-ok", "data-refused"}).Draw(rt, "prior"),
 			Helo:  rapid.IntRange(0, 3).Draw(rt, "helo") == 0, SendMail: rapid.IntRange(0, 2).Draw(rt, "sendmail") == 0,
-			LMTP: rapid.IntRange(0, 3).Draw(rt, "lmtp") == 0}
+			LMTP: rapid.IntRange(0, 3).Draw(rt, "lmtp") == 0, Frag: rapid.SampledFrom([]int{0, 0, 1, 4}).Draw(rt, "frag")}
 	})
 }
